@@ -11,10 +11,15 @@
 //          active span changing between creation and emit
 //  part D  null records and a logger disabled by the ScopeConfigurator emit nothing
 //  part E  two emits in a row: exactly one record per emit and processor, in order, each with its own values
+//  part F  the convenience surface of logs::Logger: the 24 inline Trace..Fatal wrappers, the 4 virtual Log overloads and the 6
+//          variadic Trace..Fatal(args...) templates, every level x every form, also on the disabled logger (part D)
+//  part G  the (deprecated, ABI v1) EventLogger: what it emits through its delegate logger
 #include <map>
+#include <set>
 #include <unordered_map>
 
 #include <opentelemetry/context/runtime_context.h>
+#include <opentelemetry/logs/event_logger.h>
 #include <opentelemetry/logs/logger_provider.h>
 #include <opentelemetry/trace/default_span.h>
 #include <opentelemetry/trace/scope.h>
@@ -22,6 +27,7 @@
 
 #include <opentelemetry/sdk/common/global_log_handler.h>
 #include <opentelemetry/sdk/instrumentationscope/scope_configurator.h>
+#include <opentelemetry/sdk/logs/event_logger_provider.h>
 #include <opentelemetry/sdk/logs/exporter.h>
 #include <opentelemetry/sdk/logs/logger_config.h>
 #include <opentelemetry/sdk/logs/logger_provider.h>
@@ -97,7 +103,8 @@ struct CallerValue {
   char *p = nullptr;  // characters or array elements
   size_t n = 0;       // characters / elements
   std::vector<std::pair<char *, size_t>> elems;  // element strings of span<string_view>
-  CallerValue(Arena &a, VK k, int variant) : vk(k) {
+  const Arena *arena;
+  CallerValue(Arena &a, VK k, int variant) : vk(k), arena(&a) {
     std::string tag = vf::sfmt("%d", variant);
     auto put_str = [&](const std::string &s, bool nul) {
       n = s.size();
@@ -201,10 +208,17 @@ struct CallerValue {
 // =================================================================================================
 // canonical values (category + value: bool / integer / double / string / array of ...)
 // =================================================================================================
+// Views of caller storage held by a value: (address, number of characters / elements), outermost first; views of zero elements are
+// never dereferenced and do not count. A C string in freed storage has an unknown length.
+typedef std::pair<const void *, size_t> Ref;
+typedef std::vector<Ref> Refs;
+const size_t kUnknownLen = (size_t)-1;
+
 struct SeenVal {
   std::string canon;
   bool retained = false;  // a pointer into caller storage is held (address check, no dereference)
   const char *kind = "scalar";
+  Refs refs;              // which caller storage (retained == !refs.empty())
 };
 
 struct SeeValue {
@@ -213,6 +227,7 @@ struct SeeValue {
   bool blocked(const void *p, size_t n) const {  // true: must not be dereferenced
     if (!arena || n == 0 || !arena->owns(p)) return false;
     out->retained = true;
+    out->refs.emplace_back(p, n);
     if (arena->freed()) { out->canon = "<pointer into freed caller storage>"; return true; }
     return false;
   }
@@ -227,7 +242,8 @@ struct SeeValue {
     if (v == nullptr) { out->canon = "s:<null>"; return; }
     if (arena && arena->owns(v)) {
       out->retained = true;
-      if (arena->freed()) { out->canon = "<pointer into freed caller storage>"; return; }
+      if (arena->freed()) { out->refs.emplace_back(v, kUnknownLen); out->canon = "<pointer into freed caller storage>"; return; }
+      out->refs.emplace_back(v, strlen(v));
     }
     out->canon = vf::sfmt("s:%zu:", strlen(v)) + v;
   }
@@ -434,12 +450,16 @@ struct WantVal {
   std::string canon;      // value at emit time
   CallerValue *src;       // caller storage (may be null for carriers handled by hand)
   std::string kind_name;  // for messages
-  std::vector<std::string> earlier;  // values written before this one to the same field / key (overwritten)
+  std::vector<std::pair<std::string, Refs>> earlier;  // values (and their storage) written before this one to the same field / key (overwritten)
+  Refs store;             // the caller storage that held the value when it was emitted, as the exporter would see it if the record kept views
+  std::string after;      // src == null: the canonical value that storage holds after the scribble pass
 };
 struct Want {
   bool has_sev = false; int sev = 0;
   bool has_body = false; WantVal body;
   std::map<std::string, WantVal> attrs;
+  std::set<std::string> free_keys;  // attribute keys the emitting API may add on its own (don't-care: present or not, any value)
+  bool free_event = false;          // the emitting API may fill in the event id / name when the caller supplied none (don't-care)
   bool has_ts = false; int64_t ts = 0;
   bool has_ev = false; int64_t ev_id = 0; std::string ev_name;
   bool x_tid = false, x_sid = false, x_flg = false;  // explicit components
@@ -447,14 +467,24 @@ struct Want {
   bool active = false; std::string a_tid, a_sid; int a_flg = 0;  // span active when the record was created
   std::string desc;
 };
-WantVal want_of(CallerValue *v) { return WantVal{canon_of(v->value()), v, kVKName[v->vk], {}}; }
+WantVal want_of(CallerValue *v) {
+  SeenVal s = see(v->value(), v->arena);  // the same visitor the exporter uses: storage is described exactly as a retained view would be
+  return WantVal{s.canon, v, kVKName[v->vk], {}, s.refs, ""};
+}
+// a string held by a typed caller object (std::string, map value): characters at [data, data+text.size())
+std::string scribbled(std::string s);
+WantVal want_text(const std::string &text, const char *data, const char *kind_name) {
+  Refs store;
+  if (!text.empty()) store.emplace_back(data, text.size());
+  return WantVal{vf::sfmt("s:%zu:", text.size()) + text, nullptr, kind_name, {}, store, vf::sfmt("s:%zu:", text.size()) + scribbled(text)};
+}
 void set_attr(Want &w, const std::string &key, WantVal v) {  // last write wins per key
   auto it = w.attrs.find(key);
-  if (it != w.attrs.end()) { v.earlier = it->second.earlier; v.earlier.push_back(it->second.canon); }
+  if (it != w.attrs.end()) { v.earlier = it->second.earlier; v.earlier.emplace_back(it->second.canon, it->second.store); }
   w.attrs[key] = v;
 }
 void set_body(Want &w, WantVal v) {
-  if (w.has_body) { v.earlier = w.body.earlier; v.earlier.push_back(w.body.canon); }
+  if (w.has_body) { v.earlier = w.body.earlier; v.earlier.emplace_back(w.body.canon, w.body.store); }
   w.has_body = true;
   w.body = v;
 }
@@ -481,13 +511,22 @@ struct ActiveSpans {
     active = true;
     current = sc;
   }
+  // kSpanKey is present in the current context but holds no span: a null Span pointer, a null SpanContext pointer, a value of another type
+  void push_no_span(int how) {
+    context::ContextValue v;
+    if (how == 0) v = nostd::shared_ptr<trace::Span>();
+    else if (how == 1) v = nostd::shared_ptr<trace::SpanContext>();
+    else v = (int64_t)7;
+    tokens.push_back(context::RuntimeContext::Attach(context::RuntimeContext::GetCurrent().SetValue(trace::kSpanKey, v)));
+  }
   ~ActiveSpans() {
     while (!tokens.empty()) tokens.pop_back();
     while (!scopes.empty()) scopes.pop_back();  // innermost first
   }
 };
-const int kSpanCfgs = 8;
-const char *kSpanCfgName[kSpanCfgs] = {"no-span", "sampled", "unsampled", "outer-sampled/inner-unsampled", "outer-unsampled/inner-sampled", "inner-ended", "span-context-in-context", "invalid-span"};
+const int kSpanCfgs = 11;
+const char *kSpanCfgName[kSpanCfgs] = {"no-span", "sampled", "unsampled", "outer-sampled/inner-unsampled", "outer-unsampled/inner-sampled", "inner-ended", "span-context-in-context", "invalid-span",
+                                       "null-span-pointer-in-context", "null-span-context-pointer-in-context", "non-span-value-under-the-span-key"};
 void setup_spans(ActiveSpans &a, int cfg) {
   switch (cfg) {
     case 0: break;
@@ -497,7 +536,8 @@ void setup_spans(ActiveSpans &a, int cfg) {
     case 4: a.push(ctx_of(0xb1, 0)); a.push(ctx_of(0xa1, 1)); break;
     case 5: a.push(ctx_of(0xb1, 1)); a.push(ctx_of(0xa1, 0)); a.scopes.pop_back(); a.current = ctx_of(0xb1, 1); break;
     case 6: a.push_context_only(ctx_of(0xa1, 1)); break;
-    default: a.push(trace::SpanContext::GetInvalid()); break;
+    case 7: a.push(trace::SpanContext::GetInvalid()); break;
+    default: a.push_no_span(cfg - 8); break;  // no active span: ids must be zero (and nothing may be dereferenced)
   }
 }
 void note_active(Want &w, const ActiveSpans &a) {
@@ -508,25 +548,47 @@ void note_active(Want &w, const ActiveSpans &a) {
 // =================================================================================================
 // oracle
 // =================================================================================================
-void check_value(vf::Ctx &c, const char *pos, const std::string &key, const WantVal &want, const SeenVal &got, const Sink &sink, bool after_scribble, const std::string &ctx) {
-  // (the simple exporter runs inside Emit, where pointers into the caller's storage are legitimate)
-  bool late = strcmp(sink.kind, "deferred") == 0;
-  if (got.canon == want.canon && !(late && got.retained)) return;
+// true: `got` are views of exactly the caller storage `want`. Once the storage is freed only the outermost view can be examined.
+bool same_storage(const Refs &got, const Refs &want, bool freed) {
+  if (got.empty() || want.empty()) return false;
+  auto eq = [](const Ref &g, const Ref &w) { return g.first == w.first && (g.second == w.second || g.second == kUnknownLen); };
+  if (freed) return eq(got[0], want[0]);
+  if (got.size() != want.size()) return false;
+  for (size_t i = 0; i < got.size(); ++i)
+    if (!eq(got[i], want[i])) return false;
+  return true;
+}
+
+void check_value(vf::Ctx &c, const char *pos, const std::string &key, const WantVal &want, const SeenVal &got, const Sink &sink, const std::string &ctx) {
   std::string where = std::string(pos) + (key.empty() ? "" : " '" + vfq::printable(key, 20) + "'");
-  // A pointer into the caller's storage shows up as the scribbled value (pass 1) or as an address inside a freed block (pass 2).
-  bool dangling = got.retained || (after_scribble && want.src && got.canon == canon_of(want.src->value()) && !sink.arena->freed());
-  if (dangling && late) {
-    std::string sig = std::string("C13:dangling:") + pos + ":" + got.kind + ":" + sink.kind;
-    c.report(sig, ctx + ": the " + sink.kind + " exporter sees " + where + " (" + want.kind_name + ") = '" + vfq::printable(got.canon, 60) + "', emitted was '" + vfq::printable(want.canon, 60) +
-                      "': the record refers to the caller's storage, which the caller has reused after Emit returned");
-    return;
+  std::string head = ctx + ": the " + sink.kind + " exporter sees " + where + " = '" + vfq::printable(got.canon, 60) + "'";
+  // (the simple exporter runs inside Emit, where pointers into the caller's storage are legitimate and hold the emit-time values)
+  if (strcmp(sink.kind, "deferred") == 0 && got.retained) {
+    // Exported after Emit returned and the value is a view of caller storage, which the caller has reused (and freed) by now. The listed
+    // known finding is exactly this and nothing more: the record kept a view of the storage the caller passed for the LAST value written to
+    // THIS field - same addresses, same lengths and, while the storage is still readable, the content the caller put there afterwards. A view
+    // of any other caller storage (another key's value, an overwritten value, the other record's buffers, a different alternative read from the
+    // same bytes) is a different violation and is reported under its own signature.
+    bool freed = sink.arena->freed();
+    bool own = same_storage(got.refs, want.store, freed);
+    if (own && !freed) own = got.canon == (want.src ? canon_of(want.src->value()) : want.after);
+    if (own) {
+      c.report(std::string("C13:dangling:") + pos + ":" + got.kind + ":" + sink.kind,
+               head + " (" + want.kind_name + "), emitted was '" + vfq::printable(want.canon, 60) + "': the record refers to the caller's storage, which the caller has reused after Emit returned");
+      return;
+    }
+    for (auto &e : want.earlier)
+      if (same_storage(got.refs, e.second, freed))
+        c.fail(std::string("C13:not-the-last-write:") + pos + ":" + sink.kind,
+               head + ", a view of the caller storage of '" + vfq::printable(e.first, 60) + "', which was overwritten later by '" + vfq::printable(want.canon, 60) + "'");
+    c.fail(std::string("C13:wrong-value:") + pos + ":" + sink.kind,
+           head + ", a view of caller storage other than that of the value emitted for this field, '" + vfq::printable(want.canon, 60) + "' (" + want.kind_name + ")");
   }
+  if (got.canon == want.canon) return;
   for (auto &e : want.earlier)
-    if (got.canon == e)
-      c.fail(std::string("C13:not-the-last-write:") + pos + ":" + sink.kind,
-             ctx + ": the " + sink.kind + " exporter sees " + where + " = '" + vfq::printable(got.canon, 60) + "', which was overwritten later by '" + vfq::printable(want.canon, 60) + "'");
-  c.fail(std::string("C13:wrong-value:") + pos + ":" + sink.kind,
-         ctx + ": the " + sink.kind + " exporter sees " + where + " = '" + vfq::printable(got.canon, 60) + "', emitted was '" + vfq::printable(want.canon, 60) + "'");
+    if (got.canon == e.first)
+      c.fail(std::string("C13:not-the-last-write:") + pos + ":" + sink.kind, head + ", which was overwritten later by '" + vfq::printable(want.canon, 60) + "'");
+  c.fail(std::string("C13:wrong-value:") + pos + ":" + sink.kind, head + ", emitted was '" + vfq::printable(want.canon, 60) + "'");
 }
 
 void check_component(vf::Ctx &c, const char *comp, bool is_explicit, bool any_explicit, bool active, const std::string &got, const std::string &want_explicit, const std::string &want_active,
@@ -545,23 +607,35 @@ std::string canon(const SeenRec &s) {
   return o + vf::sfmt("|ts%lld|ev%lld:", (long long)s.ts, (long long)s.event_id) + s.event_name + "|" + s.tid + "-" + s.sid + vf::sfmt("-%02x", s.flags);
 }
 
-void check_record(vf::Ctx &c, const Fixture &fx, const Want &w, const SeenRec &s, const Sink &sink, bool after_scribble) {
+// What a recordable of the exporter holds before anybody wrote to it (taken from a fresh ReadWriteLogRecord in setup()).
+struct Untouched { int severity = 0; std::string body; int64_t ts = 0, event_id = 0; std::string event_name; } g_untouched;
+
+void check_record(vf::Ctx &c, const Fixture &fx, const Want &w, const SeenRec &s, const Sink &sink) {
   const std::string &ctx = w.desc;
   std::string k = sink.kind;
+  // A field the caller never supplied must still be what a fresh recordable holds: nothing is invented on the way (same idea as
+  // attribute-invented below; the observed timestamp, which the SDK itself supplies, is not compared).
+  const Untouched &u = g_untouched;
   if (w.has_sev) c.check(s.severity == w.sev, "C13:severity:" + k, ctx + vf::sfmt(": severity %d exported, %d emitted", s.severity, w.sev));
-  if (w.has_body) check_value(c, "body", "", w.body, s.body, sink, after_scribble, ctx);
+  else c.check(s.severity == u.severity, "C13:field-invented:severity:" + k, ctx + vf::sfmt(": severity %d exported although none was supplied (an untouched record has %d)", s.severity, u.severity));
+  if (w.has_body) check_value(c, "body", "", w.body, s.body, sink, ctx);
+  else c.check(s.body.canon == u.body && !s.body.retained, "C13:field-invented:body:" + k, ctx + ": body '" + vfq::printable(s.body.canon, 60) + "' exported although none was supplied");
   for (auto &kv : w.attrs) {
     auto it = s.attrs.find(kv.first);
     c.check(it != s.attrs.end(), "C13:attribute-lost:" + k, ctx + ": attribute '" + vfq::printable(kv.first, 20) + "' is missing at the " + k + " exporter");
-    check_value(c, "attr-value", kv.first, kv.second, it->second, sink, after_scribble, ctx);
+    check_value(c, "attr-value", kv.first, kv.second, it->second, sink, ctx);
   }
   for (auto &kv : s.attrs)
-    c.check(w.attrs.count(kv.first) > 0, "C13:attribute-invented:" + k,
+    c.check(w.attrs.count(kv.first) > 0 || w.free_keys.count(kv.first) > 0, "C13:attribute-invented:" + k,
             ctx + ": attribute '" + vfq::printable(kv.first, 20) + "' = '" + vfq::printable(kv.second.canon, 40) + "' was never supplied (" + k + " exporter)");
   if (w.has_ts) c.check(s.ts == w.ts, "C13:timestamp:" + k, ctx + vf::sfmt(": timestamp %lld exported, %lld emitted", (long long)s.ts, (long long)w.ts));
+  else c.check(s.ts == u.ts, "C13:field-invented:timestamp:" + k, ctx + vf::sfmt(": timestamp %lld exported although none was supplied", (long long)s.ts));
   if (w.has_ev) {
     c.check(s.event_id == w.ev_id, "C13:event-id:" + k, ctx + vf::sfmt(": event id %lld exported, %lld emitted", (long long)s.event_id, (long long)w.ev_id));
     c.check(s.event_name == w.ev_name, "C13:event-name:" + k, ctx + ": event name '" + vfq::printable(s.event_name, 30) + "' exported, '" + vfq::printable(w.ev_name, 30) + "' emitted");
+  } else if (!w.free_event) {
+    c.check(s.event_id == u.event_id && s.event_name == u.event_name, "C13:field-invented:event-id:" + k,
+            ctx + vf::sfmt(": event id %lld / name '", (long long)s.event_id) + vfq::printable(s.event_name, 30) + "' exported although none was supplied");
   }
   bool any = w.x_tid || w.x_sid || w.x_flg;
   check_component(c, "trace-id", w.x_tid, any, w.active, s.tid, w.tid, w.a_tid, kZeroTid, sink, ctx);
@@ -593,7 +667,7 @@ void finish(vf::Ctx &c, Fixture &fx, const std::vector<Want> &wants, bool free_m
   for (auto &s : fx.sinks) {
     count_check(*s, wants.size());
     c.check(s->error.empty(), "C13:exporter-protocol", desc + ": " + s->error);
-    for (size_t i = 0; i < wants.size(); ++i) check_record(c, fx, wants[i], s->recs[i], *s, true);
+    for (size_t i = 0; i < wants.size(); ++i) check_record(c, fx, wants[i], s->recs[i], *s);
     st += s->kind;
     for (auto &r : s->recs) st += "[" + canon(r) + "]";
   }
@@ -636,13 +710,14 @@ const int64_t kTs = 1700000000123456789ll;
 struct ArgSet {
   EmitArgs a;
   CallerValue *body, *k1, *k2, *k1b, *v1, *v2, *v3;
+  KvVector *kv = nullptr;  // the container behind a.attrs
   std::shared_ptr<Keep> keep = std::make_shared<Keep>();
 };
 void build_args(Fixture &fx, ArgSet &s) {
   s.body = fx.val(V_STR, 0);
   s.k1 = text_value(fx, "key.one"); s.k2 = text_value(fx, "key.two"); s.k1b = text_value(fx, "key.one");
   s.v1 = fx.val(V_STR, 1); s.v2 = fx.val(V_I64, 2); s.v3 = fx.val(V_STR_LONG, 3);
-  KvVector *kv = make_kv(fx, s.keep, {{s.k1, s.v1}, {s.k2, s.v2}, {s.k1b, s.v3}});
+  KvVector *kv = s.kv = make_kv(fx, s.keep, {{s.k1, s.v1}, {s.k2, s.v2}, {s.k1b, s.v3}});
   auto view = std::make_shared<common::KeyValueIterableView<KvVector>>(*kv);
   s.keep->objs.push_back(view);
   auto ev = std::make_shared<logs::EventId>(77, "evt-name");
@@ -722,9 +797,13 @@ void build_sites(bool thorough) {
   for (auto &s : g_sites) if (s.n <= 1 && !s.rec) g_sites_small.push_back(s);
 }
 
+// --procs=N (development / demonstration aid, not used by the registered tiers): only processor set N is explored
+int g_only_procs = -1;
+int pick_procs(vf::Ctx &c) { return g_only_procs >= 0 ? g_only_procs : c.pick("processors", 4); }
+
 void run_orders(vf::Ctx &c) {
   const SiteRef &site = g_sites[c.pick("site", (int)g_sites.size())];
-  int proccfg = c.pick("processors", 4);
+  int proccfg = pick_procs(c);
   int spancfg = c.pick("spans", kSpanCfgs);
   Fixture fx(proccfg);
   ArgSet args;
@@ -757,8 +836,8 @@ std::string *heap_string(Fixture &fx, std::shared_ptr<Keep> keep, const std::str
 std::string scribbled(std::string s) { for (char &ch : s) ch = scr(ch); return s; }
 
 void run_values(vf::Ctx &c) {
-  int what = c.pick("what", 6);
-  int proccfg = c.pick("processors", 4);
+  int what = c.pick("what", 7);
+  int proccfg = pick_procs(c);
   bool free_mode = c.flip("free-after-emit");
   Fixture fx(proccfg);
   auto keep = std::make_shared<Keep>();
@@ -784,7 +863,7 @@ void run_values(vf::Ctx &c) {
       case 3: case 4: {
         std::string text = carrier == 3 ? "std-string-" + std::string(40, 'q') : "short";
         std::string *s = heap_string(fx, keep, text);
-        w.body = WantVal{vf::sfmt("s:%zu:", text.size()) + text, nullptr, carrier == 3 ? "std::string (heap buffer)" : "std::string (short)"};
+        w.body = want_text(text, s->data(), carrier == 3 ? "std::string (heap buffer)" : "std::string (short)");
         d = std::string("body=") + w.body.kind_name;
         lg.EmitLogRecord(*s);
         break;
@@ -854,6 +933,37 @@ void run_values(vf::Ctx &c) {
         w.x_tid = w.x_sid = w.x_flg = true; w.tid = hex(tid_of(0xc1)); w.sid = hex(sid_of(0xc1)); w.flg = 9;
         set_body(w, WantVal{"s:12:literal body", nullptr, "string literal"});
     }
+  } else if (what == 6) {  // one call writes the same field twice: the later argument wins (left to right, logger.h)
+    int shape = c.pick("shape", 4);
+    CallerValue *k1a = text_value(fx, "key.one"), *k2 = text_value(fx, "key.two"), *k1b = text_value(fx, "key.one"), *k3 = text_value(fx, "key.three");
+    CallerValue *v1 = fx.val(V_STR, 1), *v2 = fx.val(V_I64, 2), *v3 = fx.val(V_STR_LONG, 3), *v4 = fx.val(V_SP_STR, 4);
+    KvVector *a = make_kv(fx, keep, {{k1a, v1}, {k2, v2}}), *b = make_kv(fx, keep, {{k1b, v3}, {k3, v4}});
+    auto model = [&](bool a_first) {
+      if (a_first) { set_attr(w, "key.one", want_of(v1)); set_attr(w, "key.two", want_of(v2)); }
+      set_attr(w, "key.one", want_of(v3)); set_attr(w, "key.three", want_of(v4));
+      if (!a_first) { set_attr(w, "key.one", want_of(v1)); set_attr(w, "key.two", want_of(v2)); }
+    };
+    switch (shape) {
+      case 0: d = "attributes A={key.one,key.two}, attributes B={key.one,key.three} (two containers)"; model(true); lg.EmitLogRecord(*a, *b); break;
+      case 1: d = "attributes B={key.one,key.three}, attributes A={key.one,key.two} (two containers)"; model(false); lg.EmitLogRecord(*b, *a); break;
+      case 2: {
+        d = "attributes A as KeyValueIterable, severity, attributes B as span";
+        common::KeyValueIterableView<KvVector> view(*a);
+        const common::KeyValueIterable &base = view;
+        nostd::span<const std::pair<nostd::string_view, AttributeValue>> sp(b->data(), b->size());
+        model(true); w.has_sev = true; w.sev = (int)logs::Severity::kInfo3;
+        lg.EmitLogRecord(base, logs::Severity::kInfo3, sp);
+        break;
+      }
+      default: {
+        d = "body (string), attributes A, body (int64): two bodies";
+        CallerValue *b1 = fx.val(V_STR, 5), *b2 = fx.val(V_I64, 6);
+        AttributeValue av1 = b1->value(), av2 = b2->value();
+        set_body(w, want_of(b1)); set_body(w, want_of(b2));
+        set_attr(w, "key.one", want_of(v1)); set_attr(w, "key.two", want_of(v2));
+        lg.EmitLogRecord(av1, *a, av2);
+      }
+    }
   } else {  // containers with their own element types
     int carrier = c.pick("carrier", 4);
     std::string t1 = "map-value-" + std::string(30, 'm'), t2 = "v2";
@@ -864,8 +974,8 @@ void run_values(vf::Ctx &c) {
       auto *raw = m.get();
       for (auto &kv : *raw) { fx.arena.note(kv.second.data(), kv.second.size() + 1); fx.arena.note(&kv.second, sizeof(std::string)); }
       fx.extra_scribble.push_back([raw]() { for (auto &kv : *raw) for (char &ch : kv.second) ch = scr(ch); });
-      set_attr(w, "k1", WantVal{vf::sfmt("s:%zu:", t1.size()) + t1, nullptr, "std::string in std::map"});
-      set_attr(w, "k2", WantVal{vf::sfmt("s:%zu:", t2.size()) + t2, nullptr, "std::string in std::map"});
+      set_attr(w, "k1", want_text(t1, (*raw)["k1"].data(), "std::string in std::map"));
+      set_attr(w, "k2", want_text(t2, (*raw)["k2"].data(), "std::string in std::map"));
       d = "attributes=std::map<std::string,std::string>";
       lg.EmitLogRecord(*raw);
     } else if (carrier == 1) {
@@ -906,7 +1016,7 @@ void run_values(vf::Ctx &c) {
 const int kSetters = 12;
 void run_record(vf::Ctx &c) {
   int maxlen = c.thorough() ? 4 : 3;
-  int proccfg = c.pick("processors", 4);
+  int proccfg = pick_procs(c);
   int spanmode = c.pick("span-timing", 4);  // 0 none, 1 active at creation and emit, 2 at creation only, 3 at emit only
   int emit_mode = c.pick("emit", 2);        // 0 EmitLogRecord(record), 1 EmitLogRecord(record, severity)
   int len = c.pick("setters", maxlen + 1);
@@ -956,14 +1066,106 @@ void run_record(vf::Ctx &c) {
   finish(c, fx, {w}, false, nullptr, w.desc);
 }
 
+// ---- part F (definitions; used by part D as well): the convenience surface of logs::Logger ---------------------
+// The non-template wrappers are taken by address with their exact signature, so overload resolution cannot fall through to the variadic
+// templates of the same name; the templates are called with argument types no wrapper accepts.
+typedef logs::Logger L;
+typedef void (L::*WrapEv)(const logs::EventId &, nostd::string_view, const common::KeyValueIterable &) noexcept;
+typedef void (L::*WrapId)(int64_t, nostd::string_view, const common::KeyValueIterable &) noexcept;
+typedef void (L::*WrapFmt)(nostd::string_view, const common::KeyValueIterable &) noexcept;
+typedef void (L::*WrapMsg)(nostd::string_view) noexcept;
+const WrapEv kWrapEv[6] = {&L::Trace, &L::Debug, &L::Info, &L::Warn, &L::Error, &L::Fatal};
+const WrapId kWrapId[6] = {&L::Trace, &L::Debug, &L::Info, &L::Warn, &L::Error, &L::Fatal};
+const WrapFmt kWrapFmt[6] = {&L::Trace, &L::Debug, &L::Info, &L::Warn, &L::Error, &L::Fatal};
+const WrapMsg kWrapMsg[6] = {&L::Trace, &L::Debug, &L::Info, &L::Warn, &L::Error, &L::Fatal};
+const char *kLevelName[6] = {"Trace", "Debug", "Info", "Warn", "Error", "Fatal"};
+const logs::Severity kLevelSev[6] = {logs::Severity::kTrace, logs::Severity::kDebug, logs::Severity::kInfo, logs::Severity::kWarn, logs::Severity::kError, logs::Severity::kFatal};
+
+template <class... A>
+void call_level(L &l, int level, A &&...a) {  // the variadic Trace...Fatal(args...)
+  switch (level) {
+    case 0: l.Trace(std::forward<A>(a)...); break;
+    case 1: l.Debug(std::forward<A>(a)...); break;
+    case 2: l.Info(std::forward<A>(a)...); break;
+    case 3: l.Warn(std::forward<A>(a)...); break;
+    case 4: l.Error(std::forward<A>(a)...); break;
+    default: l.Fatal(std::forward<A>(a)...); break;
+  }
+}
+
+const int kConvForms = 14;
+const char *kConvFormName[kConvForms] = {
+    "(const EventId&, format, attributes)", "(int64 event id, format, attributes)", "(format, attributes)", "(message)",
+    "Log(severity, const EventId&, format, attributes)", "Log(severity, int64 event id, format, attributes)", "Log(severity, format, attributes)", "Log(severity, message)",
+    "<variadic>()", "<variadic>(AttributeValue body, attributes)", "<variadic>(EventId, attribute container, timestamp, AttributeValue body)", "<variadic>(span-context, literal body)",
+    "<variadic>(trace-id, span-id, trace-flags, timestamp, EventId, AttributeValue body, attributes)", "<variadic>(string_view body, attribute container)"};
+// the severity passed to Log(): never one of the six round levels, different per form
+logs::Severity log_severity(int level, int form) { return (logs::Severity)((int)kLevelSev[level] + 1 + form % 3); }
+
+struct ConvArgs {
+  ArgSet set;
+  CallerValue *fmt;
+  int64_t id;
+};
+void build_conv(Fixture &fx, ConvArgs &a, int form, int level) {
+  build_args(fx, a.set);
+  a.fmt = text_value(fx, vf::sfmt("format {x} of form %d level %d", form, level));
+  a.id = 4200 + 10 * form + level;
+}
+std::string conv_name(int form, int level) { return form >= 4 && form <= 7 ? std::string(kConvFormName[form]) + vf::sfmt(" [severity %d]", (int)log_severity(level, form)) : std::string(kLevelName[level]) + kConvFormName[form]; }
+
+void call_conv(L &lg, ConvArgs &a, int form, int level) {
+  EmitArgs &e = a.set.a;
+  nostd::string_view fmt = view_of(a.fmt);
+  const logs::EventId &ev = *e.ev;
+  const common::KeyValueIterable &attrs = *e.attrs;
+  switch (form) {
+    case 0: (lg.*kWrapEv[level])(ev, fmt, attrs); break;
+    case 1: (lg.*kWrapId[level])(a.id, fmt, attrs); break;
+    case 2: (lg.*kWrapFmt[level])(fmt, attrs); break;
+    case 3: (lg.*kWrapMsg[level])(fmt); break;
+    case 4: lg.Log(log_severity(level, form), ev, fmt, attrs); break;
+    case 5: lg.Log(log_severity(level, form), a.id, fmt, attrs); break;
+    case 6: lg.Log(log_severity(level, form), fmt, attrs); break;
+    case 7: lg.Log(log_severity(level, form), fmt); break;
+    case 8: call_level(lg, level); break;
+    case 9: call_level(lg, level, e.body, attrs); break;
+    case 10: call_level(lg, level, *e.ev, *a.set.kv, e.ts, e.body); break;
+    case 11: call_level(lg, level, e.ctx, "literal body"); break;
+    case 12: call_level(lg, level, e.tid, e.sid, e.flg, e.ts, *e.ev, e.body, attrs); break;
+    default: call_level(lg, level, fmt, *a.set.kv); break;
+  }
+}
+void model_conv(Want &w, const ConvArgs &a, int form, int level) {
+  w.has_sev = true;
+  w.sev = form >= 4 && form <= 7 ? (int)log_severity(level, form) : (int)kLevelSev[level];
+  auto fmt_body = [&]() { set_body(w, want_of(a.fmt)); };
+  auto ev_id_only = [&]() { w.has_ev = true; w.ev_id = a.id; w.ev_name = ""; };
+  switch (form) {
+    case 0: case 4: model_arg(w, a.set, K_EV); fmt_body(); model_arg(w, a.set, K_ATTR); break;
+    case 1: case 5: ev_id_only(); fmt_body(); model_arg(w, a.set, K_ATTR); break;
+    case 2: case 6: case 13: fmt_body(); model_arg(w, a.set, K_ATTR); break;
+    case 3: case 7: fmt_body(); break;
+    case 8: break;
+    case 9: model_arg(w, a.set, K_BODY); model_arg(w, a.set, K_ATTR); break;
+    case 10: model_arg(w, a.set, K_EV); model_arg(w, a.set, K_ATTR); model_arg(w, a.set, K_TS); model_arg(w, a.set, K_BODY); break;
+    case 11: model_arg(w, a.set, K_CTX); set_body(w, WantVal{"s:12:literal body", nullptr, "string literal"}); break;
+    default:
+      model_arg(w, a.set, K_TID); model_arg(w, a.set, K_SID); model_arg(w, a.set, K_FLG); model_arg(w, a.set, K_TS);
+      model_arg(w, a.set, K_EV); model_arg(w, a.set, K_BODY); model_arg(w, a.set, K_ATTR);
+  }
+}
+
 // ---- part D: null records, disabled logger ---------------------------------------------------------------
 void run_nothing(vf::Ctx &c) {
-  int mode = c.pick("mode", 6);
-  int proccfg = c.pick("processors", 4);
+  int mode = c.pick("mode", 7);
+  int proccfg = pick_procs(c);
   int spancfg = c.pick("spans", 2);
   Fixture fx(proccfg);
-  ArgSet args;
-  build_args(fx, args);
+  ConvArgs cargs;
+  int conv_form = mode == 6 ? c.pick("form", kConvForms) : 0, conv_level = conv_form % 6;
+  build_conv(fx, cargs, conv_form, conv_level);
+  ArgSet &args = cargs.set;
   ActiveSpans spans;
   setup_spans(spans, spancfg);
   std::string d;
@@ -994,10 +1196,15 @@ void run_nothing(vf::Ctx &c) {
       fx.disabled_logger->EmitLogRecord(std::move(rec));
       break;
     }
-    default:
+    case 5:
       d = "disabled logger: EmitLogRecord(severity, body, attributes, span-context)";
       sig = "C13:disabled-logger-exported";
       fx.disabled_logger->EmitLogRecord(args.a.sev, args.a.body, *args.a.attrs, args.a.ctx);
+      break;
+    default:
+      d = "disabled logger: " + conv_name(conv_form, conv_level);
+      sig = "C13:disabled-logger-exported";
+      call_conv(*fx.disabled_logger, cargs, conv_form, conv_level);
   }
   c.step();
   d = "D " + d + " processors " + kProcCfgName[proccfg];
@@ -1045,7 +1252,7 @@ void emit_shape(vf::Ctx &c, Fixture &fx, int shape, int ordinal, Want &w, std::s
   c.step();
 }
 void run_two(vf::Ctx &c) {
-  int proccfg = c.pick("processors", 4);
+  int proccfg = pick_procs(c);
   int s1 = c.pick("first", 5), span_between = c.pick("span-change", 3), s2 = c.pick("second", 5);
   Fixture fx(proccfg);
   std::string d = "E";
@@ -1068,26 +1275,116 @@ void run_two(vf::Ctx &c) {
   finish(c, fx, wants, false, nullptr, d);
 }
 
+// ---- part F (continued) ---------------------------------------------------------------------------------------
+void run_convenience(vf::Ctx &c) {
+  int form = c.pick("form", kConvForms);
+  int level = c.pick("level", 6);
+  int proccfg = pick_procs(c);
+  int spancfg = c.pick("spans", 2);
+  bool free_mode = c.flip("free-after-emit");
+  Fixture fx(proccfg);
+  ConvArgs args;
+  build_conv(fx, args, form, level);
+  ActiveSpans spans;
+  setup_spans(spans, spancfg);
+  Want w;
+  w.desc = "F " + conv_name(form, level) + " processors " + kProcCfgName[proccfg] + " spans " + kSpanCfgName[spancfg] + (free_mode ? " storage freed after the call" : "");
+  note_active(w, spans);
+  model_conv(w, args, form, level);
+  c.stage("convenience-call");
+  call_conv(*fx.logger, args, form, level);
+  c.step();
+  finish(c, fx, {w}, free_mode, nullptr, w.desc);
+}
+
+#if OPENTELEMETRY_ABI_VERSION_NO < 2
+// ---- part G: EventLogger (deprecated) ------------------------------------------------------------------------
+// Its record goes through the delegate logger, so everything the statement says about a record holds for what the caller supplied. The
+// "event.domain" / "event.name" attributes it adds when both are non-empty are not part of the statement: don't-care keys, and so is the
+// record's event id / name when the caller supplied no EventId (an event logger may put the event name there). Each mode writes
+// every field at most once: EmitEvent(args...) applies its arguments in an unspecified order (a plain pack expansion into function arguments).
+void run_event_logger(vf::Ctx &c) {
+  int mode = c.pick("mode", 6);
+  int with_domain = c.pick("domain", 2), with_name = c.pick("event-name", 2);
+  int proccfg = pick_procs(c);
+  int spancfg = c.pick("spans", 2);
+  Fixture fx(proccfg);
+  ArgSet args;
+  build_args(fx, args);
+  ActiveSpans spans;
+  setup_spans(spans, spancfg);
+  CallerValue *dom = text_value(fx, with_domain ? "event.domain.x" : ""), *nm = text_value(fx, with_name ? "event.name.y" : "");
+  sdklogs::EventLoggerProvider elp;
+  c.stage("CreateEventLogger");
+  nostd::shared_ptr<logs::EventLogger> el = elp.CreateEventLogger(mode == 5 ? fx.disabled_logger : fx.logger, view_of(dom));  // alive until the deferred export is over
+  c.check((bool)el, "C13:create-null", "CreateEventLogger returned null");
+  Want w;
+  w.free_keys = {"event.domain", "event.name"};
+  w.free_event = true;
+  note_active(w, spans);
+  std::string d;
+  const char *nothing = nullptr;
+  c.stage("EmitEvent");
+  switch (mode) {
+    case 0: d = "EmitEvent(name, severity, body, attributes)"; el->EmitEvent(view_of(nm), args.a.sev, args.a.body, *args.a.attrs); model_arg(w, args, K_SEV); model_arg(w, args, K_BODY); model_arg(w, args, K_ATTR); break;
+    case 1: d = "EmitEvent(name, attribute container, timestamp, EventId, trace-id)"; el->EmitEvent(view_of(nm), *args.kv, args.a.ts, *args.a.ev, args.a.tid); model_arg(w, args, K_ATTR); model_arg(w, args, K_TS); model_arg(w, args, K_EV); model_arg(w, args, K_TID); break;
+    case 2: d = "EmitEvent(name)"; el->EmitEvent(view_of(nm)); break;
+    case 3: {
+      d = "EmitEvent(name, CreateLogRecord + SetSeverity + SetBody)";
+      auto rec = fx.logger->CreateLogRecord();
+      rec->SetSeverity(logs::Severity::kError2);
+      rec->SetBody(args.a.body);
+      el->EmitEvent(view_of(nm), std::move(rec));
+      w.has_sev = true; w.sev = (int)logs::Severity::kError2; model_arg(w, args, K_BODY);
+      break;
+    }
+    case 4: d = "EmitEvent(name, null record)"; nothing = "C13:null-record-exported"; el->EmitEvent(view_of(nm), nostd::unique_ptr<logs::LogRecord>()); break;
+    default: d = "disabled delegate logger: EmitEvent(name, severity, body)"; nothing = "C13:disabled-logger-exported"; el->EmitEvent(view_of(nm), args.a.sev, args.a.body); break;
+  }
+  c.step();
+  w.desc = "G EventLogger(domain '" + std::string(dom->p, dom->n) + "')." + d + " name '" + std::string(nm->p, nm->n) + "' processors " + kProcCfgName[proccfg] + " spans " + kSpanCfgName[spancfg];
+  std::vector<Want> wants;
+  if (!nothing) wants.push_back(w);
+  finish(c, fx, wants, false, nothing, w.desc);
+}
+const int kParts = 7;
+#else
+void run_event_logger(vf::Ctx &) {}
+const int kParts = 6;
+#endif
+
 void setup(vf::Options &o) {
   o.split_depth = 2;
   o.deadline_s = o.thorough ? 1200 : 120;
   o.table_bits = 23;
   build_sites(o.thorough);
+  if (!o.get("procs").empty()) g_only_procs = atoi(o.get("procs").c_str()) & 3;
   unsetenv("OTEL_RESOURCE_ATTRIBUTES");
   unsetenv("OTEL_SERVICE_NAME");
   sdkcommon::internal_log::GlobalLogHandler::SetLogHandler(
       nostd::shared_ptr<sdkcommon::internal_log::LogHandler>(new sdkcommon::internal_log::NoopLogHandler()));
+  sdklogs::ReadWriteLogRecord fresh;
+  g_untouched.severity = (int)fresh.GetSeverity();
+  g_untouched.body = canon_of(fresh.GetBody());
+  g_untouched.ts = fresh.GetTimestamp().time_since_epoch().count();
+  g_untouched.event_id = fresh.GetEventId();
+  g_untouched.event_name = std::string(fresh.GetEventName().data(), fresh.GetEventName().size());
 }
 
 void run(vf::Ctx &c) {
   vf::clock_reset();
   vf::clock_set_autostep_ns(1000);
-  switch (c.pick("part", 5)) {
+  static const char *part_counter[7] = {"executions-part-A", "executions-part-B", "executions-part-C", "executions-part-D", "executions-part-E", "executions-part-F", "executions-part-G"};
+  int part = c.pick("part", kParts);
+  c.counted(part_counter[part]);
+  switch (part) {
     case 0: run_orders(c); break;
     case 1: run_values(c); break;
     case 2: run_record(c); break;
     case 3: run_nothing(c); break;
-    default: run_two(c); break;
+    case 4: run_two(c); break;
+    case 5: run_convenience(c); break;
+    default: run_event_logger(c); break;
   }
 }
 
